@@ -40,7 +40,8 @@ VARIANTS = (
 )
 
 CLASSES = ["generic", "hermitian", "hermitian_repeat", "upper_tri", "normal", "rank1", "rank2", "int", "diag", "scaled_small", "scaled_big",
-           "hermitian_psd", "scaled_huge", "int_big", "hermitian_big", "sparse", "sparse_hermitian"]
+           "hermitian_psd", "scaled_huge", "int_big", "hermitian_big", "sparse", "sparse_hermitian",
+           "hess_axis_subdiag", "tri_plus_one_subdiag", "hess_tiny_axis_subdiag"]
 
 
 def vname(fn, kw):
@@ -99,6 +100,22 @@ def make(rng, cls, n):
         A = gen.entries(rng, "sparse", n, n)
         A = A + refq.herm(A)
         herm = True
+    elif cls in ("hess_axis_subdiag", "tri_plus_one_subdiag", "hess_tiny_axis_subdiag"):
+        # already upper Hessenberg, the sub-diagonal entries purely along ONE of the four axes each (w / i / j / k, all four visited): a
+        # deflation test that looks at a subset of the components sees some of these entries as zero.  tri_plus_one_subdiag: triangular but
+        # for ONE sub-diagonal entry (first / middle / last position); hess_tiny: sub-diagonal entries of size 1e-5..1e-7 relative - small
+        # but far above any deflation threshold the tolerance permits
+        c = refq.fa(gen.structured(rng, "upper_tri", n, n)).copy()
+        mag = 1.0 if cls != "hess_tiny_axis_subdiag" else float(rng.choice([1e-5, 1e-6, 1e-7]))
+        pos = list(range(1, n))
+        if cls == "tri_plus_one_subdiag" and n >= 2:
+            pos = [[1, n - 1, max(1, n // 2)][int(rng.integers(0, 3))]]
+        ax0 = int(rng.integers(0, 4))
+        for t, i in enumerate(pos):
+            v = np.zeros(4)
+            v[(ax0 + t) % 4] = mag * float(rng.choice([-1.0, 1.0])) * (0.5 + rng.random())
+            c[i, i - 1] = v
+        A = refq.qa(c)
     elif cls == "diag":
         A = gen.structured(rng, "diag", n, n)
     elif cls == "scaled_small":
